@@ -81,7 +81,8 @@ def er_vc(R, H, N, eos_set, include_eos, batch_first, norm, variant):
         return z3.And(gs)
 
     twins = [("fewest_plus_one", twin)] if (variant == "rate" and not norm) else []
-    return VC("C02.S.edits_of_min_cost_alignment", name, M, "_string_matching", thunk, pre=[INS > 0, DEL > 0, SUB > 0],
+    # the largest shapes of the thorough tier take seconds per obligation on an idle machine: a budget that survives a loaded one
+    return VC("C02.S.edits_of_min_cost_alignment", name, M, "_string_matching", thunk, pre=[INS > 0, DEL > 0, SUB > 0], timeout_ms=(300000 if R + H >= 5 else None),
               posts=[("between_fewest_and_most_edits_of_min_cost_alignments", post)], twins=twins, inputs=model_inputs(R, H, N),
               replay=lambda m: replay_er(m, R, H, N, eos_set, include_eos, batch_first, norm, variant),
               assumptions=["float arithmetic treated as real arithmetic", "torch primitive contracts in vf/pyvc/ctensor.py (differentially tested)",
